@@ -2,6 +2,8 @@
 """usage: tools/record_seed.py <seed_out_dir> <seed_id> <eval_result.json>  → seeded/<seed_id>/{patch.diff,demo.py,meta.json}"""
 import json, os, shutil, sys
 sd, sid, res = sys.argv[1:4]
+rerun = sys.argv[4] if len(sys.argv) > 4 else None
+note = sys.argv[5] if len(sys.argv) > 5 else None
 root = os.path.join(os.path.dirname(os.path.abspath(__file__)), "..")
 dst = os.path.join(root, "seeded", sid)
 os.makedirs(dst, exist_ok=True)
@@ -19,5 +21,12 @@ meta["checks"] = [{"check": c["check"], "exit": c["exit"],
                    "caught": c["exit"] == 1,
                    "concrete_replay": c["exit"] == 1 and "no-failing-input-found" not in c["violations"].split(";")[0] ,
                    "first_violation": c["detail"][:300]} for c in r["checks"]]
+if rerun:
+    r2 = json.load(open(rerun))
+    meta["first_evaluation"] = meta.pop("checks")
+    meta["checks"] = [{"check": c["check"], "exit": c["exit"], "caught": c["exit"] == 1,
+                       "concrete_replay": c["exit"] == 1 and "no-failing-input-found" not in c["violations"].split(";")[0],
+                       "first_violation": c["detail"][:300]} for c in r2["checks"]]
+    meta["history"] = note
 json.dump(meta, open(os.path.join(dst, "meta.json"), "w"), indent=1)
 print(sid, [(c["check"], c["caught"], c["concrete_replay"]) for c in meta["checks"]])
